@@ -185,6 +185,19 @@ def f_gbt(tag):
     return gbx.GeoboxTiles(g, (n * 16, 16))
 
 
+def f_gbt_var(tag):
+    """tiled GeoBox over a VARIABLE tiling: the token must carry both offset arrays"""
+    from affine import Affine
+
+    import odc.geo.geobox as gbx
+
+    chy = tuple(Int(f"{tag}_cy{i}", 1, 1000) for i in range(2))
+    chx = tuple(Int(f"{tag}_cx{i}", 1, 1000) for i in range(2))
+    A = Affine(rconst(F(10)), 0.0, Real(f"{tag}_c"), 0.0, rconst(F(-10)), Real(f"{tag}_f"))
+    g = gbx.GeoBox((chy[0] + chy[1], chx[0] + chx[1]), A, "epsg:3857")
+    return gbx.GeoboxTiles(g, (chy, chx))
+
+
 def f_bin(tag):
     from odc.geo.math import Bin1D
 
@@ -231,6 +244,7 @@ TYPES = {
     "BoundingBox": (f_bbox, True, False),
     "GeoBox": (f_gbox, True, True),
     "GeoboxTiles": (f_gbt, False, True),
+    "GeoboxTiles[variable]": (f_gbt_var, False, True),
     "Bin1D": (f_bin, False, False),
     "GridSpec": (f_gridspec, False, False),
     "GCPGeoBox": (f_gcp, True, True),
